@@ -177,3 +177,30 @@ pub proof fn lemma_collect_std(s: Comps)
         assert(a2 + s.skip(1) =~= s);
     }
 }
+
+// R1: the second argument of trim_prefix / trim_suffix is any `AsRef<Path>`: a path, a String or a string literal
+pub trait PathLike: Sized {
+    spec fn lp(&self) -> Seq<char>;
+    spec fn lu(&self) -> bool;
+    fn as_ref(&self) -> (r: &PathBuf) ensures r.pstr() == self.lp(), r.utf8_ok() == self.lu();
+}
+impl<'a> PathLike for &'a PathBuf {
+    open spec fn lp(&self) -> Seq<char> { (**self).pstr() }
+    open spec fn lu(&self) -> bool { (**self).utf8_ok() }
+    #[verifier::external_body] fn as_ref(&self) -> (r: &PathBuf) { unimplemented!() }
+}
+impl PathLike for Str {
+    open spec fn lp(&self) -> Seq<char> { self@ }
+    open spec fn lu(&self) -> bool { true }
+    #[verifier::external_body] fn as_ref(&self) -> (r: &PathBuf) { unimplemented!() }
+}
+impl<'a> PathLike for &'a Str {
+    open spec fn lp(&self) -> Seq<char> { (**self)@ }
+    open spec fn lu(&self) -> bool { true }
+    #[verifier::external_body] fn as_ref(&self) -> (r: &PathBuf) { unimplemented!() }
+}
+impl PathLike for &'static str {
+    open spec fn lp(&self) -> Seq<char> { (*self)@ }
+    open spec fn lu(&self) -> bool { true }
+    #[verifier::external_body] fn as_ref(&self) -> (r: &PathBuf) { unimplemented!() }
+}
